@@ -222,3 +222,6 @@ void enumerate(const Emit& emit, const std::string& tier) {
       emit(b);
     }
 }
+
+// no defect of the pinned tree was found behind this property
+void regressions() {}
